@@ -21,7 +21,7 @@ vars == <<ops, pos, db, pend, remain, lastKey, out>>
 OpSet == {[o |-> x] : x \in {"aux", "lua", "resize", "modaux"}}
          \cup {[o |-> x, v |-> v] : x \in {"exms", "exs", "idle", "freq"}, v \in Vals}
          \cup {[o |-> "sel", v |-> d] : d \in Dbs}
-         \cup {[o |-> "key", v |-> id, parts |-> p] : id \in 1..MaxOps, p \in {1, 2}}
+         \cup {[o |-> "key", v |-> id, parts |-> p] : id \in 1..MaxOps, p \in {1, 2, 3}}
 NoPend == [ex |-> 0, idle |-> 0, freq |-> 0]
 Init == /\ ops \in UNION {[1..n -> OpSet] : n \in 0..MaxOps}
         /\ \A i \in 1..Len(ops) : ops[i].o = "key" => ops[i].v = i          \* key ids = position: distinct
